@@ -14,12 +14,14 @@ import (
 	"verifharness/internal/corr"
 )
 
-// F-ldiff-width: more than compareThreshold ids inside a range narrower than divideFactor make
-// makeBottomRanges recurse without bound (fatal "stack overflow", not recoverable in process).
-// It is the hypothesis `NoNarrow` of the Lean theorems. The input is exhibited on the real code in
-// a CHILD process (this binary re-executed with VERIF_LDIFF_WIDTH_CHILD set): df=3, thr=1 and two
-// ids whose (crafted, verified) xxhash values are the two values of a width-2 node of the range
-// grid — no hash collision is needed.
+// F-ldiff-width (repaired by fix-width): more than compareThreshold ids inside a range narrower
+// than divideFactor made makeBottomRanges recurse without bound (fatal "stack overflow", not
+// recoverable in process) and the diff loop run forever. The witness is replayed on the real code in
+// a CHILD process (this binary re-executed with VERIF_LDIFF_WIDTH_CHILD set): df=3, thr=1, ids whose
+// (crafted, verified) xxhash values lie in one width-2 range of the grid — adjacent values and a
+// genuine collision. With the repair the child must return the exact diff; if it dies or reports
+// something else the defect is back. The child runs before the other streams: when it fails, the
+// generators stop producing such contents for the rest of the run (`allowNarrow`).
 
 const widthChildEnv = "VERIF_LDIFF_WIDTH_CHILD"
 
@@ -45,54 +47,92 @@ func findNarrow(r rng, df, depth int) (rng, bool) {
 	return r, false
 }
 
-func widthIDs() (ids []string, node rng, ok bool) {
+// widthCase: local a = {x0:h1, x1:h1, x3:h1}, remote b = {x0:h2, x2:h1, x3:h1} where x0,x1 have the
+// two hash values of the narrow range, x2 collides with x1, x3 collides with x0.
+func widthCase() (ids []string, node rng, ok bool) {
 	node, ok = findNarrow(top, 3, 0)
 	if !ok {
 		return nil, node, false
 	}
-	return []string{craftID(0x51d7, node.from), craftID(0x51d8, node.from+1)}, node, true
+	return []string{craftID(0x51d7, node.from), craftID(0x51d8, node.from+1), craftID(0x51d9, node.from+1), craftID(0x51da, node.from)}, node, true
 }
 
 func widthChild() {
 	debug.SetMaxStack(48 << 20)
-	ids, _, ok := widthIDs()
+	ids, _, ok := widthCase()
 	if !ok {
 		fmt.Println("NO-NARROW-NODE")
 		os.Exit(0)
 	}
-	d := real.New(3, 1)
-	d.Set(real.Element{Id: ids[0], Head: "h1"}, real.Element{Id: ids[1], Head: "h1"})
-	fmt.Println("SURVIVED", d.Len())
+	a, b := real.New(3, 1), real.New(3, 1)
+	a.Set(real.Element{Id: ids[0], Head: "h1"}, real.Element{Id: ids[1], Head: "h1"}, real.Element{Id: ids[3], Head: "h1"})
+	b.Set(real.Element{Id: ids[0], Head: "h2"}, real.Element{Id: ids[2], Head: "h1"}, real.Element{Id: ids[3], Head: "h1"})
+	w := newWorld(ids)
+	res := "SURVIVED"
+	for _, v := range []string{"diff", "cdiff", "wire-cdiff"} {
+		got, _ := runDiff(w, v, a, b)
+		// report by position in ids (not by world index)
+		res += " " + v + "{" + got.String() + "}"
+	}
+	// after removing the surplus the narrow leaf must look like a fresh one
+	a.RemoveId(ids[1])
+	fresh := real.New(3, 1)
+	fresh.Set(real.Element{Id: ids[0], Head: "h1"}, real.Element{Id: ids[3], Head: "h1"})
+	res += fmt.Sprintf(" rmhash=%v", a.Hash() == fresh.Hash())
+	fmt.Println(res)
 	os.Exit(0)
 }
 
-// exhibitWidth runs the child and records the known finding when the real code crashes.
+// exhibitWidth runs the child; a crash or a wrong answer is the defect F-ldiff-width.
 func exhibitWidth(r *corr.Run) {
 	exe, err := os.Executable()
 	if err != nil {
 		return
 	}
-	ids, node, ok := widthIDs()
+	ids, node, ok := widthCase()
 	if !ok {
 		r.Count("width.no-narrow-node")
 		return
 	}
-	cx, cancel := context.WithTimeout(context.Background(), 90*time.Second)
+	w := newWorld(ids)
+	ix := func(i int) int { return w.idx[ids[i]] }
+	A := contents{ix(0): 4, ix(1): 4, ix(3): 4}
+	B := contents{ix(0): 5, ix(2): 4, ix(3): 4}
+	want := "SURVIVED"
+	for _, v := range []string{"diff", "cdiff", "wire-cdiff"} {
+		want += " " + v + "{" + specDiff(A, B, strings.HasSuffix(v, "cdiff")).String() + "}"
+	}
+	want += " rmhash=true"
+	cx, cancel := context.WithTimeout(context.Background(), 120*time.Second)
 	defer cancel()
 	cmd := exec.CommandContext(cx, exe)
 	cmd.Env = append(os.Environ(), widthChildEnv+"=1")
 	out, err := cmd.CombinedOutput()
-	s := string(out)
+	s := strings.TrimSpace(string(out))
+	ops := []string{"new a 3 1", "new b 3 1",
+		fmt.Sprintf("set a 0:%d:4 1:%d:4 3:%d:4", node.from, node.from+1, node.from),
+		fmt.Sprintf("set b 0:%d:5 2:%d:4 3:%d:4", node.from, node.from+1, node.from), "diff a b"}
+	desc := fmt.Sprintf("df=3 thr=1, ids with xxhash %d and %d (the two values of the grid range [%d,%d], narrower than df; one adjacent pair, two collisions); ids(hex) %x %x %x %x: ",
+		node.from, node.from+1, node.from, node.to, ids[0], ids[1], ids[2], ids[3])
 	switch {
-	case err != nil && (strings.Contains(s, "stack overflow") || strings.Contains(s, "goroutine stack exceeds")):
+	case err == nil && s == want:
+		r.Count("width.child.ok")
+	case strings.Contains(s, "stack overflow") || strings.Contains(s, "goroutine stack exceeds"):
 		r.Count("width.child.stack-overflow")
-		r.Violate("C07", "F-ldiff-width", "ldiff.width.child",
-			fmt.Sprintf("ldiff.New(3,1).Set of two ids with xxhash %d and %d (both inside the width-2 grid range [%d,%d]) does not return: fatal stack overflow in makeBottomRanges (child process); ids(hex) %x %x",
-				node.from, node.from+1, node.from, node.to, ids[0], ids[1]),
-			[]string{"new a 3 1", fmt.Sprintf("set a 0:%d:1 1:%d:1", node.from, node.from+1)})
-	case strings.Contains(s, "SURVIVED"):
-		r.Count("width.child.survived")
+		allowNarrow = false
+		r.Violate("C07", "F-ldiff-width", "ldiff.width.child", desc+"Set does not return: fatal stack overflow in makeBottomRanges (child process)", ops)
+		r.Violate("C08", "F-ldiff-width", "ldiff.width.child", desc+"Set does not return: fatal stack overflow in makeBottomRanges (child process)", ops)
+	case cx.Err() != nil:
+		r.Count("width.child.timeout")
+		allowNarrow = false
+		r.Violate("C07", "F-ldiff-width", "ldiff.width.child", desc+"no answer within 120 s (child process)", ops)
+	case strings.HasPrefix(s, "SURVIVED"):
+		r.Count("width.child.wrong-answer")
+		allowNarrow = false
+		r.Violate("C07", "F-ldiff-width", "ldiff.width.child", desc+"child reported {"+s+"}, the property requires {"+want+"}", ops)
 	default:
 		r.Count("width.child.inconclusive")
+		allowNarrow = false
+		r.Note("width child: %v %s", err, s)
 	}
 }
